@@ -628,32 +628,65 @@ def field_cover(ctx: Ctx):
     sc = ctx.P.func('serialization.Serializer.serialize_class')
     sn = st.self_name
     tparam = [a.arg for a in st.params if a.arg != sn][0]
-    loops = [lp for lp in walk_local(st.node) if isinstance(lp, ast.For) and isinstance(lp.iter, ast.Call)
-             and dotted(lp.iter.func) == 'fields' and isinstance(lp.iter.args[0], ast.Name) and lp.iter.args[0].id == tparam]
     gst = ctx.cfg(st)
-    ok = bool(loops) and not early_exits(loops[0], allow_raise=True, allow_continue=False) \
-        and gst.must_pass(gst.entry, [gst.primary(loops[0])], [gst.exit], exc=False)
-    yield ctx.ob('C07.FIELD-COVER', ok, st, loops[0] if loops else st.node, 'loop over all fields(task)',
-                 '' if ok else 'serialize_task does not loop over all fields(task) (sliced, filtered, conditional or cut short)')
     rets = [n for n in walk_local(st.node) if isinstance(n, ast.Return)]
     dname = rets[0].value.id if rets and isinstance(rets[0].value, ast.Name) else None
-    if loops and dname:
-        lp = loops[0]
-        fv = lp.target.id if isinstance(lp.target, ast.Name) else None
-        g = ctx.cfg(st)
+
+    def is_fields_iter(it):
+        return isinstance(it, ast.Call) and dotted(it.func) == 'fields' and len(it.args) == 1 \
+            and isinstance(it.args[0], ast.Name) and it.args[0].id == tparam
+
+    def elem_ok(fv, key, val):
+        return same_expr(key, ast.parse(f'{fv}.name', mode='eval').body) and isinstance(val, ast.Call) \
+            and isinstance(val.func, ast.Attribute) and val.func.attr == 'serialize_value' and val.args \
+            and same_expr(val.args[0], ast.parse(f'getattr({tparam}, {fv}.name)', mode='eval').body)
+    covered = False
+    why = 'serialize_task has neither a loop nor a comprehension over all fields(task)'
+    anchor = st.node
+    # form 1: explicit loop storing into the returned dict
+    for lp in [lp for lp in walk_local(st.node) if isinstance(lp, ast.For) and is_fields_iter(lp.iter) and isinstance(lp.target, ast.Name)]:
+        anchor = lp
+        fv = lp.target.id
         rd = ctx.rd(st)
         stores = [n for n in walk_local(lp) if isinstance(n, ast.Assign) and isinstance(n.targets[0], ast.Subscript)
                   and isinstance(n.targets[0].value, ast.Name) and n.targets[0].value.id == dname]
-        oks = False
-        if stores and fv:
-            s0 = stores[0]
-            key_ok = same_expr(s0.targets[0].slice, ast.parse(f'{fv}.name', mode='eval').body)
-            val = expand_locals(g, rd, s0.value, g.primary(s0))
-            val_ok = isinstance(val, ast.Call) and isinstance(val.func, ast.Attribute) and val.func.attr == 'serialize_value' \
-                and val.args and same_expr(val.args[0], ast.parse(f'getattr({tparam}, {fv}.name)', mode='eval').body)
-            oks = key_ok and val_ok and cond_in_loop(ctx, st, lp, s0) == TRUE
-        yield ctx.ob('C07.FIELD-COVER', oks, st, stores[0] if stores else lp, 'serialized[field.name] = serialize_value(getattr(task, field.name))',
-                     '' if oks else 'a field value does not flow (unconditionally, through serialize_value) into the serialised dict under its own name')
+        if early_exits(lp, allow_raise=True, allow_continue=False):
+            why = 'the field loop can be cut short'
+        elif not gst.must_pass(gst.entry, [gst.primary(lp)], [gst.exit], exc=False):
+            why = 'the field loop is conditional'
+        elif not stores:
+            why = 'the field loop does not store into the returned dict'
+        else:
+            val = expand_locals(gst, rd, stores[0].value, gst.primary(stores[0]))
+            if elem_ok(fv, stores[0].targets[0].slice, val) and cond_in_loop(ctx, st, lp, stores[0]) == TRUE:
+                covered = True
+            else:
+                why = 'a field value does not flow (unconditionally, through serialize_value) into the serialised dict under its own name'
+    # form 2: dict comprehension over fields(task) that is (part of) the returned dict
+    for dc in [n for n in walk_local(st.node) if isinstance(n, ast.DictComp) and len(n.generators) == 1 and is_fields_iter(n.generators[0].iter)]:
+        anchor = dc
+        gen = dc.generators[0]
+        if gen.ifs:
+            why = 'the field comprehension filters fields'
+        elif not isinstance(gen.target, ast.Name) or not elem_ok(gen.target.id, dc.key, dc.value):
+            why = 'the field comprehension does not map field.name to serialize_value(getattr(task, field.name))'
+        else:
+            # it must reach the returned dict: `**comp` in the dict display bound to the returned name,
+            # `d.update(comp)`, or the returned expression itself
+            flows = False
+            for n in walk_local(st.node):
+                if isinstance(n, ast.Dict) and any(v is dc for k, v in zip(n.keys, n.values) if k is None):
+                    flows = True
+                if isinstance(n, ast.Call) and isinstance(n.func, ast.Attribute) and n.func.attr == 'update' and n.args and n.args[0] is dc \
+                        and isinstance(n.func.value, ast.Name) and n.func.value.id == dname:
+                    flows = gst.must_pass(gst.entry, [gst.primary(n)], [gst.exit], exc=False)
+            if rets and rets[0].value is dc:
+                flows = True
+            covered = covered or flows
+            if not flows:
+                why = 'the field comprehension does not flow into the returned dict'
+    yield ctx.ob('C07.FIELD-COVER', covered, st, anchor, 'every field: serialized[field.name] = serialize_value(getattr(task, field.name))',
+                 '' if covered else f'serialize_task does not cover every field of the task: {why}')
     lits = [n for n in walk_local(st.node) if isinstance(n, ast.Dict)]
     okc = False
     for d in lits:
